@@ -31,6 +31,7 @@ struct ItemProg {
   bool vabort = false;   // ctx.abort() on first attempt (after last acquire)
   int vabort_times = 1;  // ... on the first vabort_times attempts (back-off loops)
   int prio    = 0;       // priority (OBIM) / level
+  bool pause_owning = false; // spin-wait hint (asmPause) while owning everything
 };
 
 struct Program {
@@ -82,6 +83,8 @@ inline void fe_operator(int item, Ctx& ctx, bool cd) {
     vf_log(K_VABORT, item, 0);
     ctx.abort();
   }
+  if (p.pause_owning)
+    galois::substrate::asmPause(); // a scheduling hint while holding the locks
   // ---- commit point: a cautious operator only writes from here on --------
   ctx.cautiousPoint(); // (deterministic executor: ends the inspection pass)
   vf_log(K_COMMIT, item, att);
